@@ -6,5 +6,5 @@ patch="/verif/seeded/$seed/patch.diff"; [ -f "$patch" ] || patch="$seed"
 W=$(mktemp -d /tmp/wt-try.XXXXXX); rmdir "$W"
 git -C /repo worktree add -q "$W" HEAD || exit 3
 git -C "$W" apply "$patch" || { git -C /repo worktree remove --force "$W"; echo "patch does not apply"; exit 3; }
-cd /verif && VERIF_REPO="$W" VERIF_EVIDENCE_DIR=/tmp/try-evidence timeout 3000 bin/check "$prop" --tier "$tier" 2>&1 | grep -v "^  " | tail -${TAIL:-4}
+cd /verif && VERIF_REPO="$W" VERIF_EVIDENCE_DIR=/tmp/try-evidence VERIF_REPLAY_DIR=/tmp/try-replay timeout 3000 bin/check "$prop" --tier "$tier" 2>&1 | grep -v "^  " | tail -${TAIL:-4}
 git -C /repo worktree remove --force "$W"
